@@ -59,6 +59,30 @@ prop('C13', engine='storesim', profiles={'quick': [('c13', 2400)], 'thorough': [
      rule='MultiChains over 2-4 generated roots (overlapping pipelines, differing parameters/contexts/namespaces), requests and MultiChain.force '
           'interleaved across members, standalone chains alongside; member == standalone model (tasks, keys, values), object identity iff same '
           'computation, values shared in memory, flags in every member; non-trivial = a value was served from memory of a shared object or a forced task re-ran')
+ASSUME_CACHE = ['cache code runs real (taskchain.cache, filelock, orjson, numpy, pandas) on tmpfs; an interrupted write is modelled as the complete file '
+                'truncated to a prefix (sequential writers); restart = new cache objects over the same directory',
+                'keys: unicode strings incl. empty, NUL, separators, canonically equivalent pairs; npy/DataFrame caches carry no key, so misdirected files are generated for JSON caches only']
+prop('C14', engine='cachesim', profiles={'quick': [('c14', 20000)], 'thorough': [('c14', 600000)]}, level='exploration',
+     nontrivial=lambda r: bool(r['stats'].get('fired')) and r['stats'].get('hits', 0) > 0,
+     assumptions_override=ASSUME_CACHE,
+     rule='seeded histories of get / get_or_compute / force / sub-cache navigation / restart over Json(allow_nones both ways), Numpy, DataFrame and '
+          'InMemory caches with raising computers, truncated/empty/garbage/removed/misdirected cache files, judged against a dictionary model; '
+          'non-trivial = at least one fault or restart happened and at least one hit was served; distinct = scenario digest')
+prop('C16', engine='cachesim', profiles={'quick': [('c16', 20000)], 'thorough': [('c16', 600000)]}, level='exploration',
+     nontrivial=lambda r: r['stats'].get('hits_other_spelling', 0) > 0,
+     assumptions_override=ASSUME_CACHE[:1] + ['method signatures: 1-3 positional-or-keyword and 0-2 keyword-only parameters with/without defaults, ignore_kwargs, version, decorator cache or object cache; *args methods outside the domain'],
+     rule='seeded families of cached methods and call histories: spellings of one binding (positional/keyword/permuted/defaults spelled or omitted), '
+          'JSON-distinguishable argument values (1/True/1.0/...), force_cache/only_cache/store_cache_value, restarts; executions and returned values vs a '
+          'model keyed by canonical binding; non-trivial = an entry was hit through a different spelling than the one that filled it')
+prop('C15', engine='schedsim', profiles={'quick': [('sched', 4000)], 'thorough': [('sched', 150000)]}, level='exploration',
+     nontrivial=lambda r: r['stats'].get('steps', 0) > 20,
+     assumptions_override=['2-3 real caller threads, each with its own cache object (standing for threads or processes: the lock is the real flock), run one at a time under a baton; '
+                           'pre-emption at every source line of taskchain/cache.py and utils/json.py, at every lock poll (time.sleep) and between write chunks; '
+                           'real filelock, real files on tmpfs; time.sleep and open() are the only stubs', 'computers never raise in these schedules'],
+     rule='seeded caller programs (get / get_or_compute / forced) on 1-2 keys x cache type x value size x write chunking x scheduling policy '
+          '(random walk with switch probability, PCT priorities, writer-window bias); history checked for complete values, no failures, no recomputation '
+          'after a completed call, complete entry at quiescence; distinct interleavings = digest of the schedule choice trace; non-trivial = more than 20 scheduling steps',
+     extra_coverage=lambda recs: {'distinct_interleavings': len({tuple(r.get('states') or []) for r in recs})})
 ASSUME_PMAP = ['f is gate-controlled: a call completes only when the controller releases it; in-flight sets follow the documented semantics '
                '(FIFO start, `threads` workers, chunk after chunk); real ThreadPoolExecutor and asyncio loop, tqdm stubbed']
 prop('C17', engine='pmapsim', profiles={'quick': [('pmap', 6000)], 'thorough': [('pmap', 200000)]}, level='exploration',
@@ -73,6 +97,12 @@ def get_engine(name):
     if name == 'pmapsim':
         from tcsim.pmapsim import PmapEngine
         return PmapEngine()
+    if name == 'schedsim':
+        from tcsim.schedsim import SchedEngine
+        return SchedEngine()
+    if name == 'cachesim':
+        from tcsim.cachesim import CacheEngine
+        return CacheEngine()
     if name == 'storesim':
         from tcsim.storesim.engine import StoreEngine
         return StoreEngine()
@@ -85,6 +115,7 @@ def signature(discs, pid):
 
 def run_one(engine, scn, ctx):
     obs = engine.execute(scn, ctx)
+    engine.finalize(scn, obs)
     discs, stats, states = engine.judge(scn, obs)
     return obs, discs
 
